@@ -282,6 +282,7 @@ def fields(line):
 # see every marker (any of them may be the visible end of undefined behaviour or of a feature switch changing behaviour).
 FAIL_OWNERS = [
     ("callback received an event object", ("C05",)),
+    ("control.previousTransitions()", ("C06", "C11")),
     ("control.context()", ("C06",)), ("control._()", ("C06",)), ("context() const", ("C06",)),
     ("control.isActive<TState>()", ("C06", "C14")),
     ("FAIL: isActive<TState>()", ("C01", "C14")),
